@@ -1484,7 +1484,12 @@ def _unpack_blocks(operator: BlockSeries, atol: float = 1e-12) -> BlockSeries:
         if h is zero:
             return zero
         try:
-            return _convert_if_zero(h[index[0]][index[1]], atol=atol)
+            block = h[index[0]][index[1]]
+            if isinstance(block, sparse.spmatrix):
+                # Sums of legacy sparse matrices with arrays are `np.matrix`, for
+                # which `*` is a matrix product.
+                block = sparse.csr_array(block)
+            return _convert_if_zero(block, atol=atol)
         except Exception as e:
             raise ValueError(
                 "Without `subspace_eigenvectors` or `subspace_indices`"
